@@ -100,7 +100,11 @@ Lookup(S, name, insensitive) == LookupIn(Candidates(S), Winners(S), name, insens
 \* ------------------------------------------------------- omit options
 \* value classes of a leaf: "zero" (0, "", nil slice), "empty" (non-nil empty slice; same as zero
 \* for int and str), "full"
+\* a leaf of kind "zeroer" is an integer type with an IsZero() method that answers v = -1: its value
+\* classes are "zero" (the Go zero value, but IsZero() is false), "empty" (-1: IsZero() is true)
+\* and "full"; omitzero follows the method, as documented
 Omitted(f, vc, omitZeroOpt) ==
-    \/ (f.omitzero \/ omitZeroOpt) /\ (vc = "zero" \/ (vc = "empty" /\ f.kind # "slice"))
+    \/ (f.omitzero \/ omitZeroOpt) /\
+         (IF f.kind = "zeroer" THEN vc = "empty" ELSE (vc = "zero" \/ (vc = "empty" /\ f.kind # "slice")))
     \/ f.omitempty /\ vc \in {"zero", "empty"} /\ f.kind \in {"str", "slice"}
 =============================================================================
